@@ -18,17 +18,17 @@ LEVEL = "exploration"
 EXHAUSTIVE = {"quick": True, "thorough": True}
 RULE = (
     "choice lists (1-5 entries incl. numeric-looking, duplicated, spaced, case-differing) x single/multi-select x default "
-    "(none / index / index list) x attempt limit {unlimited,1,2,3} x every script of up to L typed lines over a 15-entry "
+    "(none / index / index list) x attempt limit {unlimited,1,2,3} x every script of up to L typed lines over a 17-entry "
     "adversarial alphabet, each followed by end of input (last line with or without newline); each dialogue runs on a "
     "fresh question with a scripted input stream (read budget 12 end-of-input reads) and recording outputs; compared with "
     "the dialogue model: returned value, lines consumed, errors printed (counted structurally from the error stream), "
     "failure after exactly N invalid entries, stop at end of input. Confirmation: patterns x answers x defaults; "
-    "non-interactive: default returned, zero reads, zero bytes. non-trivial = script with >= 1 invalid entry; "
+    "non-interactive: the very default given is returned (None, index, index text, spaced index list, name), zero reads, zero bytes. Re-ask: one question object (choice / confirmation / validated) asked 2-3 times with random scripts, each ask compared (result, reads, both streams) with a new question. non-trivial = script with >= 1 invalid entry; "
     "distinct by (choices id, config, script)."
 )
 BOUND = {
-    "quick": "all scripts of length <= 2 (241) x 6 lists x 2 modes x <=3 defaults x 4 limits + 6000 random scripts of length 3-4; confirmation 3x19x2; non-interactive 200",
-    "thorough": "all scripts of length <= 3 (3616) x the same 132 configurations + 300000 random of length 4; confirmation and non-interactive as quick",
+    "quick": "all scripts of length <= 2 (307) x 6 lists x 2 modes x <=3 defaults x 4 limits + 6000 random scripts of length 3-4; confirmation 3x19x2; non-interactive 400; 1500 re-ask histories",
+    "thorough": "all scripts of length <= 3 (5220) x the same 132 configurations + 300000 random of length 4; confirmation and non-interactive as quick",
 }
 ASSUMPTIONS = [
     "in multi-select the entry is split at commas after removing spaces (so a choice containing a space can only be selected by index there)",
@@ -36,7 +36,7 @@ ASSUMPTIONS = [
     "errors printed are counted structurally: text written between two reads of the input minus the (verbatim repeated) prompt, and text written after the last read",
 ]
 
-ANS = ["", "a", "1", "0", "dup", "-1", "99", "zz", " b ", "a,b", "1,,2", "a, 1", "x y", "10", "A"]
+ANS = ["", "a", "1", "0", "dup", "-1", "99", "zz", " b ", "a,b", "1,,2", "a, 1", "x y", "10", "A", "b,dup", "1,dup,b"]
 LISTS = [["a", "b", "c"], ["a"], ["1", "0", "c"], ["dup", "b", "dup"], ["x y", "A", "a"], ["a", "b", "c", "d", "10"]]
 LIMITS = [None, 1, 2, 3]
 QTEXT = "QQpick"
@@ -195,14 +195,22 @@ def run_dialogue(sh, lab, cfg, script, last_newline=True):
         for a, b in zip(marks, marks[1:]):
             between = errtext[a:b]
             if not between.endswith(prompt):
-                sh.inconclusive_because("the prompt is not repeated verbatim between attempts: printed errors cannot be separated from prompts")
-                return
+                # printed errors cannot be separated from prompts: the clauses on reads, answers and limits are still decided
+                errors = None
+                break
             if between[:len(between) - len(prompt)].strip():
                 errors += 1
-        if errtext[marks[-1]:].strip():
+        if errors is not None and errtext[marks[-1]:].strip():
             errors += 1
     sh.count("reads_observed", st.reads)
-    sh.count("errors_observed", max(errors, 0))
+    sh.count("errors_observed", max(errors or 0, 0))
+
+    def errors_differ(n):
+        if errors is None:
+            sh.inconclusive_because("the prompt is not repeated verbatim between attempts: printed errors cannot be separated from prompts")
+            return False
+        return errors != n
+
     if out.fetch():
         sh.violate("writes-to-stdout", case, "question wrote %r to the standard output" % out.fetch()[:60])
     if exp[0] == "ret":
@@ -214,7 +222,7 @@ def run_dialogue(sh, lab, cfg, script, last_newline=True):
             sh.violate("answer-not-a-member", case, "returned %r, choices %r" % (res[1], C))
         if st.reads != consumed:
             sh.violate("reads", case, "consumed %d input line(s), %d attempt(s) were made" % (st.reads, consumed))
-        elif errors != invalid:
+        elif errors_differ(invalid):
             sh.violate("errors", case, "%d error line(s) printed for %d invalid entr(ies): %r" % (errors, invalid, errtext[-200:]))
         sh.count("answered")
     elif exp[0] == "exhausted":
@@ -223,7 +231,7 @@ def run_dialogue(sh, lab, cfg, script, last_newline=True):
             return
         if st.reads != consumed:
             sh.violate("reads", case, "failed after consuming %d line(s), expected %d" % (st.reads, consumed))
-        elif errors + 1 != invalid:
+        elif errors_differ(invalid - 1):
             sh.violate("errors", case, "%d error line(s) printed + final failure for %d invalid entr(ies)" % (errors, invalid))
         sh.count("exhausted")
     else:
@@ -299,9 +307,9 @@ def non_interactive(sh, lab, rng, n):
         kind = i % 3
         if kind == 0:
             C = rng.choice(LISTS)
-            d = rng.choice([None, 0])
+            d = rng.choice([None, 0, 1, "1", "0", " 0 , 1 ", "0,1", C[0]])
             q = lab.ChoiceQuestion(QTEXT, list(C), d)
-            q.set_multi_select(rng.random() < 0.3)
+            q.set_multi_select(rng.random() < 0.3 or (isinstance(d, str) and "," in d))
             q.set_max_attempts(rng.choice(LIMITS))
         elif kind == 1:
             d = rng.choice([True, False])
@@ -319,10 +327,56 @@ def non_interactive(sh, lab, rng, n):
             sh.violate("non-interactive", case, "raised %r" % (e,))
             continue
         sh.count("non_interactive")
-        if got is not q.default and got != q.default:
-            sh.violate("non-interactive", case, "returned %r, default is %r" % (got, q.default))
+        if got is not d and not (type(got) is type(d) and got == d):
+            sh.violate("non-interactive", case, "returned %r, the default given to the question is %r" % (got, d))
         if st.reads or st.char_reads or out.fetch() or err.fetch():
             sh.violate("non-interactive", case, "reads=%d bytes out=%r err=%r" % (st.reads, out.fetch()[:30], err.fetch()[:30]))
+
+
+def reask(sh, lab, rng, n):
+    """One question object asked several times: each ask behaves as a first ask of a new question does (answer or
+    failure, lines consumed, everything printed)."""
+    cf = configs()
+
+    def ask(q, script):
+        io, st, out, err = lab.io([x + "\n" for x in script])
+        try:
+            res = ("ret", q.ask(io))
+        except ReadBudgetExceeded:
+            res = ("budget",)
+        except Exception as e:
+            res = ("exc", type(e).__name__, str(e))
+        return res, st.reads, out.fetch(), err.fetch()
+
+    def make(cfg, kind):
+        ci, multi, default, limit = cfg
+        if kind == "choice":
+            q = lab.ChoiceQuestion(QTEXT, list(LISTS[ci]), default)
+            q.set_multi_select(multi)
+        elif kind == "confirm":
+            q = lab.ConfirmationQuestion(QTEXT, bool(default))
+        else:
+            q = lab.Question(QTEXT, None if default is None else "dflt")
+            q.set_validator(int)
+        q.set_max_attempts(limit)
+        return q
+
+    for i in range(n):
+        cfg = cf[rng.randrange(len(cf))]
+        kind = rng.choice(["choice", "choice", "choice", "confirm", "validated"])
+        scripts = [tuple(rng.choice(ANS) for _ in range(rng.randint(0, 3))) for _ in range(rng.randint(2, 3))]
+        q = make(cfg, kind)
+        record = {"kind": "re-ask", "question": kind, "choices": LISTS[cfg[0]], "multi": cfg[1], "default": cfg[2], "limit": cfg[3], "scripts": [list(x) for x in scripts]}
+        sh.case(("re-ask", kind, cfg, tuple(scripts)), True)
+        for k, script in enumerate(scripts):
+            got = ask(q, script)
+            want = ask(make(cfg, kind), script)
+            sh.count("re_asks")
+            if got != want:
+                which = [nm for nm, a, b in zip(("result", "reads", "stdout", "stderr"), got, want) if a != b]
+                sh.violate("re-ask", record, "ask #%d %r on the question object used before differs from a new question in %s: %r vs %r" % (
+                    k, list(script), ",".join(which), [a for a, b in zip(got, want) if a != b][0], [b for a, b in zip(got, want) if a != b][0]))
+                break
 
 
 def plan(tier, seed):
@@ -366,14 +420,15 @@ def run(sh, spec):
     else:
         interchange(sh, lab)
         confirmations(sh, lab)
-        non_interactive(sh, lab, sh.rng, 200)
+        non_interactive(sh, lab, sh.rng, 400)
+        reask(sh, lab, sh.rng, 1500 if sh.tier == "quick" else 40000)
         sh.sample({"kind": "confirm", "pattern": PATTERNS[0], "answer": " y ", "default": False})
 
 
 def finalize(tier, merged):
     c = merged["counters"]
     inc = []
-    for k in ("dialogues", "answered", "exhausted", "ended_at_eof", "reads_observed", "errors_observed", "confirmations", "non_interactive", "interchange_pairs"):
+    for k in ("dialogues", "answered", "exhausted", "ended_at_eof", "reads_observed", "errors_observed", "confirmations", "non_interactive", "interchange_pairs", "re_asks"):
         if not c.get(k):
             inc.append("counter %s is zero" % k)
     return {"inconclusive": inc}
@@ -387,6 +442,8 @@ def replay(sh, case):
     if case["kind"] == "choice":
         ci = LISTS.index(case["choices"])
         run_dialogue(sh, lab, (ci, case["multi"], case["default"], case["limit"]), tuple(case["script"]), case.get("last_newline", True))
+    elif case["kind"] == "re-ask":
+        sh.inconclusive_because("re-ask replay: rerun the check with the same VERIF_SEED (the record lists the scripts)")
     elif case["kind"] == "confirm":
         confirmations(sh, lab)
     elif case["kind"] == "interchange":
